@@ -5,6 +5,8 @@ NOTES = ("Machine-checked proof in Coq 8.16 over executable Gallina models of th
          "(translator -> coq/gen). Oracles (math/big, encoding/*, x/net/html, node, strace) only search for failing inputs. "
          "fix: commits and open findings are listed in known_findings.json.")
 ENGINES = [
+    {"name": "Buf", "path": "coq/theories/Buf", "serves_properties": ["C10"],
+     "kind_free_text": "F1 Gallina model of the look-ahead TokenBuffer (html/xml/svg buffer.go); harness/cmd/totalcheck (buffers, hostile-input sweep, scaling probes)"},
     {"name": "Stream", "path": "coq/theories/Stream + coq/gen/IoSkeleton_gen.v", "serves_properties": ["C12", "C14", "C10"],
      "kind_free_text": "Gallina model of the streaming entry points and of the Writer wrapper's pipe system; I/O skeletons from the translator; harness/cmd/streamcheck"},
     {"name": "Tables", "path": "coq/theories/Tables + coq/gen/Tables_gen.v + translator/", "serves_properties": ["C17", "C04", "C03"],
@@ -19,6 +21,18 @@ ENGINES = [
      "kind_free_text": "F2 Gallina model of minify.Number/Decimal (precision 0) + lexeme grammar and value spec; extracted to OCaml; harness/cmd/numcheck"},
 ]
 CHECKS = {
+    "C10": {
+        "engine": "Buf", "design_ref": "DESIGN.md section 4 / C10",
+        "technique": "Coq proof of index safety for the F1 look-ahead buffer model and the Bytes contract + mutation sweep as search",
+        "text": ("Theorems (Props/C10.v): the F1 model of the html/xml/svg TokenBuffer (length, capacity, position, reallocation, compaction) executes any "
+                 "sequence of Peek(i)/Shift on any token stream without an out-of-range access and keeps pos <= len <= cap; Bytes/String report an error "
+                 "together with the caller's original data. Tie: the extracted buffer model is driven with the same random operation sequences as the real "
+                 "TokenBuffers over real lexers and must return the same token types. Everything else of this property — panics, hangs, memory, linear "
+                 "time of the six minifiers as a whole, incl. the unmodelled parse/v2 front ends — is decided by search only: every corpus/benchmark file "
+                 "and deterministic mutations/splices/truncations under recover with size-proportional time limits, deep nesting, 16x scaling probes."),
+        "note": ("Partial by nature: a theorem covers the modelled index arithmetic; totality of unmodelled Go code cannot be proved here and is labelled search. "
+                 "Trusted: Coq kernel, extraction, driver, harness."),
+    },
     "C12": {
         "engine": "Stream", "design_ref": "DESIGN.md section 4 / C12",
         "technique": "Coq proof: functional model of the entry points + small-step system of the Writer wrapper (invariant, progress, measure) + correspondence over partitions",
